@@ -129,8 +129,13 @@ def run(ctx: Ctx) -> None:
                 r.check(ok, f"{short(f.qname)}|RiscvArchitecturalState(..)", f.loc(c), f"{short(f.qname)} builds a RiscvArchitecturalState "
                         f"{'without' if a is None else 'with a constant'} detect_data_hazards: the simulation's flag is lost for what runs on that state")
     from ..pipelinerules import five_stage_config
-    cfg = five_stage_config(ctx)
-    id_calls = [c for c in cfg["stage_calls"] if m.resolve_class(st.module, c.func) is idc]
+    try:
+        cfg = five_stage_config(ctx)
+        id_calls = [c for c in cfg["stage_calls"] if m.resolve_class(st.module, c.func) is idc]
+    except AnalysisError as exc:
+        # the state no longer builds its own list of fresh stages: then it does not hand its flag to a decode stage of its own either
+        ctx.notes.append(f"R08.thread: {exc}")
+        id_calls = []
     hop2 = len(id_calls) == 1 and is_param(arg_of(id_calls[0], idi, "detect_data_hazards"), st, "detect_data_hazards")
     r.check(hop2 and "detect_data_hazards" in st.params, "state->ID", st.loc(),
             "RiscvArchitecturalState does not pass detect_data_hazards on to InstructionDecodeStage")
